@@ -174,6 +174,7 @@ def build_parser() -> argparse.ArgumentParser:
     ap.add_argument("--no-shrink", action="store_true")
     ap.add_argument("--evidence-dir", default=None)
     ap.add_argument("--max-min", type=int, default=12, help="minimise at most this many distinct signatures")
+    ap.add_argument("--isolate", action="store_true", default=os.environ.get("VERIF_ISOLATE") == "1", help="run every seed in its own forked child (no state can leak from one run into the next)")
     return ap
 
 
@@ -197,6 +198,8 @@ def main(argv: list[str]) -> int:
         print(f"unknown or unclaimed property {prop}", file=sys.stderr)
         return 2
     machine = REGISTRY[prop](prop)
+    if args.isolate:
+        machine.isolate_runs = True
     tier = args.tier
     seed_env = os.environ.get("VERIF_SEED")
     base_seed = args.seed if args.seed is not None else (int(seed_env) if seed_env else DEFAULT_SEED[tier])
@@ -410,6 +413,7 @@ def main(argv: list[str]) -> int:
                 "known_findings_replayed": known_replayed,
                 "known_finding_hits_during_search": dict(known_hits),
                 "jobs": jobs,
+                "every_seed_in_its_own_forked_child": bool(getattr(machine, "isolate_runs", False)),
                 "explore_wall_s": round(explore_s, 2),
                 "machine": machine.name,
                 "real_components": machine.real_components,
